@@ -151,6 +151,9 @@ def gen(ctx):
 
 
 # ------------------------------------------------------------------------------------------------- evaluation
+SKIPPED = []
+
+
 def build(ctx, variants):
     jobs, keys = [], []
     for (v, cfg) in dict.fromkeys(variants):
@@ -160,8 +163,14 @@ def build(ctx, variants):
                      [f"-DCV_N={N}", f"-DCV_T={T}", f"-DCV_M={M}", f"-DCV_CT={CT}", f"-DCV_STACK={ST}"]))
     res = C.compile_many(jobs, timeout=1500)
     exes = {}
+    gxx_ok = any(rc == 0 for j, (rc, _) in zip(jobs, res) if j[2] != "clang")
     for k, j, (rc, err) in zip(keys, jobs, res):
         if rc != 0:
+            if j[2] == "clang" and gxx_ok:
+                # the auxiliary compiler (clang 14 cannot parse all of the library as it is) rejects what g++ accepts: the variant
+                # is left out of this run, it is not a statement about the property
+                SKIPPED.append((variant_name(k[0]), C.first_diag(err)))
+                continue
             raise C.CompileError(f"{j[0]} {' '.join(j[3])}", j[2], err)
         exes[k] = j[1]
     return exes
@@ -200,6 +209,9 @@ def evaluate(ctx, variants, cases, full=False):
     for o in OBLS:
         corr.add_obl(o)
     exes = build(ctx, [(v, cfg) for v, cfg, _ in cases])
+    for name, diag in SKIPPED:
+        corr.notes.append(f"variant {name} (clang) left out: the auxiliary compiler rejects the translation unit which g++ accepts ({diag[:160]})")
+    cases = [c for c in cases if (c[0], c[1]) in exes]
     # ---- model: once per distinct (layouts, extents)
     mkeys = list(dict.fromkeys(model_line(op, full) for _, _, op in cases))
     groups = collections.OrderedDict()
